@@ -439,7 +439,12 @@ for _t in ("int", "double", "bool", "long", "size_t"):
 for _d in ("int *P", "int &R", "const double &R", "int **P", "int *&P", "double * const P"):
     ILLEGAL.append("typedef " + _d)
 # text left over after the expression of an attribute value
-ILLEGAL += ["void f(int *a +dimension(n m), int n, int m)", "void f(int *a +rank(1), int n +implied(size(a) 2))", "void f(int *a +dimension(n)) )", "int *f(int n) +dimension(n n)"]
+# a qualified name must be a member of the scope it names
+ILLEGAL += ["@scoped void f(Shape::Color c)", "@scoped void f(geo::Color c)", "@scoped void f(geo::Box::Color c)", "@scoped void f(Shape::Box *b)", "@scoped void f(geo::Shape *s)"]
+VALID_SCOPED = ["@scoped void f(Shape::Kind k)", "@scoped void f(Color c)", "@scoped void f(geo::Box *b)", "@scoped void f(Shape *s)"]
+ILLEGAL += ["void f(int *a +dimension(n 2), int n)", "void f(int *a +dimension(3 4))", "void f(int *a +dimension(2 n), int n)", "const char *f() +len(3 0)",
+            "void f(int *a +rank(1 1))", "void f(int *a +dimension(n_ 2), int n_)",
+            "void f(int *a +dimension(n m), int n, int m)", "void f(int *a +rank(1), int n +implied(size(a) 2))", "void f(int *a +dimension(n)) )", "int *f(int n) +dimension(n n)"]
 ILLEGAL = list(dict.fromkeys(ILLEGAL))
 
 
@@ -449,6 +454,10 @@ def attr_case(decl):
 
     typemap.initialize()
     decls = [dict(decl=decl)]
+    if decl.startswith("@scoped "):
+        # a file-scope enum, a class with an enum of its own, a namespace with a class: then the declaration
+        decls = [dict(decl="enum Color { RED, BLUE }"), dict(decl="class Shape", declarations=[dict(decl="Shape()"), dict(decl="enum Kind { A, B }")]),
+                 dict(decl="namespace geo", declarations=[dict(decl="class Box", declarations=[dict(decl="Box()")])]), dict(decl=decl[len("@scoped "):])]
     if decl.startswith("@class "):
         # the declaration is a data member of a class
         decls = [dict(decl="class Cm", declarations=[dict(decl="Cm()"), dict(decl=decl[len("@class "):])])]
@@ -699,7 +708,7 @@ def run(ctx):
         for nm in names:
             for vf in forms:
                 decls.append(tmpl % ("+" + nm + vf))
-    decls += ILLEGAL
+    decls += ILLEGAL + VALID_SCOPED
     chunks = [decls[i::W * 2] for i in range(W * 2)]
     ares = []
     for part in isolate.pmap(attr_shard, chunks, W):
@@ -713,6 +722,8 @@ def run(ctx):
                 ctx.violation("attrs illegal-accepted %s" % decl, "documented illegal attribute use accepted without diagnostic: %s" % decl,
                               {"kind": "attr", "decl": decl})
         elif status == "diagnostic":
+            if decl in VALID_SCOPED:
+                ctx.violation("attrs valid-rejected %s" % decl, "a correctly qualified name is rejected: %s: %s" % (decl, msg), {"kind": "attr", "decl": decl})
             if not msg.strip():
                 ctx.violation("attrs empty-diagnostic %s" % decl, "diagnostic without text for %s" % decl, {"kind": "attr", "decl": decl})
         else:
